@@ -231,8 +231,7 @@ def c18(tier):
     jobs = [Job("h_c18::independent", (3, 1, 0), dict(base, nd_budget=1), budget_s=3000, validate=20, native_repeats=3),
             Job("h_c18::independent", (3, 0, 0), dict(base, nd_budget=1), budget_s=3000, validate=20, native_repeats=3)]
     if tier != "quick":
-        jobs += [Job("h_c18::independent", (3, 1, 1), dict(base, nd_budget=1), budget_s=6000, validate=20, native_repeats=3),
-                 Job("h_c18::independent", (2, 1, 0), dict(base, nd_budget=2), budget_s=6000, validate=20, native_repeats=3)]
+        jobs += [Job("h_c18::independent", (2, 1, 0), dict(base, nd_budget=2), budget_s=3000, validate=20, native_repeats=3)]
     jobs += [Job("h_tree::tree_rule", (2, 6, 2), {}, budget_s=1500, validate=20)]
     # warm vs cold caches with symbolic capacities 1..3: an observer that read earlier receives several versions at once
     jobs.append(Job("h_c04::observer_chain", (7, 2), dict(S2), budget_s=3000, validate=20))
